@@ -141,6 +141,7 @@ package engine
 //@   invariant@1 nofail: !$actionFailed && !($evalFailed && g.ReturnErrOnFailedRuleEvaluation) && !$addFailed
 //@   invariant@1 kb: knowledge != nil && dataCtx != nil && knowledge.WorkingMemory != nil && KBInv(knowledge)
 //@   invariant@1[C15] cancel: old($cancelled) ==> $runExec == 0 && $cancelled
+//@   invariant@1[C15,C02] noctxerr: !$ctxErrSeen
 //@   decreases@1 g.MaxCycle + 1 - cycle
 // evaluation loop `for _, ruleEntry := range knowledge.RuleEntries`
 //@   invariant@2 runnable: forall k int :: 0 <= k && k < len(runnable) ==> runnable[k] != nil && candNow(runnable[k]) && $notifStamp[runnable[k]] == $stamp && active(runnable[k])
@@ -150,6 +151,7 @@ package engine
 //@   invariant@2 ghostwf: forall re Ref :: $evalStamp[re] <= $stamp && $notifStamp[re] <= $stamp
 //@   invariant@2 nofail: !($evalFailed && g.ReturnErrOnFailedRuleEvaluation)
 //@   invariant@2[C15] cancel: old($cancelled) ==> $cancelled
+//@   invariant@2[C15,C02] noctxerr: !$ctxErrSeen
 // selection scan `for idx, pr := range runnable`
 //@   invariant@3 runner: runner != nil && candNow(runner) && $notifStamp[runner] == $stamp && active(runner)
 //@   invariant@3 first: $i == 0 ==> runner == runnable[0]
